@@ -32,7 +32,8 @@ def cases(tier, rng, schema, feats):
                 out.append(f"C01.{n}\tdec2\t{bytes([cmd]).hex()}{cbor.enc(tree).hex()}")
                 n += 1
     # nested dictionaries stand-alone
-    for t, d in schema.items():
+    for t in request_types(schema):
+        d = schema[t]
         if d["kind"] != "struct" or not d["de"]:
             continue
         labels = g.optional_wire_labels(t)
